@@ -172,6 +172,10 @@ func (c *Ctx) Finish(verif string, start time.Time) int {
 		funcs = append(funcs, f)
 	}
 	sort.Strings(funcs)
+	if c.Assumptions == nil {
+		c.Assumptions = []string{}
+	}
+	c.Assumptions = append(c.Assumptions, "the Go type checker and go/ssa represent the program faithfully; third-party and standard libraries behave as documented")
 	expl := c.Explanation
 	if len(c.NotDecided) > 0 {
 		expl += " NOT DECIDED by this check: " + strings.Join(c.NotDecided, "; ") + "."
